@@ -151,3 +151,27 @@ Definition expand_size (t : size_table) : list (option size_rule) := map (lookup
 (* a size function given by a table *)
 Definition size_by (t : size_table) (name : list N) (items : N) : option N :=
   option_map (fun r => eval_size r items) (lookup_size t name).
+
+(* ---- Request::function_code / Response::function_code: variant name -> name of the function code ("Custom" -> "Custom",
+   which carries the request's own code) ---- *)
+Definition fc_variant_table := list (list N * list N).
+Fixpoint lookup_pair (t : fc_variant_table) (n : list N) : option (list N) :=
+  match t with
+  | [] => None
+  | (a, b) :: t' => if leqb n a then Some b else lookup_pair t' n
+  end.
+Definition expand_pairs (t : fc_variant_table) : list (option (list N)) := map (lookup_pair t) variant_names.
+
+(* the name of the function code of a request / response as the model computes it *)
+Definition fc_short_name (f : function_code) : list N :=
+  match f with FcCustom _ => s2l "Custom" | _ => show_fc_name f end.
+Definition req_fc_table_model : fc_variant_table :=
+  map (fun r => (req_variant r, fc_short_name (req_fc r)))
+      [ReqReadCoils 0 0; ReqReadDiscreteInputs 0 0; ReqWriteSingleCoil 0 false; ReqWriteMultipleCoils 0 []; ReqReadInputRegisters 0 0;
+       ReqReadHoldingRegisters 0 0; ReqWriteSingleRegister 0 0; ReqWriteMultipleRegisters 0 []; ReqReportServerId;
+       ReqMaskWriteRegister 0 0 0; ReqReadWriteMultipleRegisters 0 0 0 []; ReqCustom 0 []].
+Definition rsp_fc_table_model : fc_variant_table :=
+  map (fun r => (rsp_variant r, fc_short_name (rsp_fc r)))
+      [RspReadCoils []; RspReadDiscreteInputs []; RspWriteSingleCoil 0 false; RspWriteMultipleCoils 0 0; RspReadInputRegisters [];
+       RspReadHoldingRegisters []; RspWriteSingleRegister 0 0; RspWriteMultipleRegisters 0 0; RspReportServerId 0 false [];
+       RspMaskWriteRegister 0 0 0; RspReadWriteMultipleRegisters []; RspCustom 0 []].
